@@ -19,6 +19,10 @@ import (
 type c49Case struct {
 	Prog []bpfIns `json:"prog"`
 	Pkt  []byte   `json:"pkt"`
+	// More are further packets run through the SAME VM value afterwards ("every
+	// input packet": a VM is built once and used for many packets; each run must give
+	// the verdict of a reference run that starts from a clean machine).
+	More [][]byte `json:"more,omitempty"`
 }
 
 type c49Trace struct {
@@ -305,6 +309,23 @@ func c49Prop(c c49Case, r *vp.Rec) error {
 	if tr.takenJumps > 0 && tr.inBounds > 0 {
 		r.NonTrivial()
 	}
+	for i, pkt := range c.More {
+		got, rerr := vm.Run(pkt)
+		want, tr2, referr := c49Ref(raw, pkt)
+		if referr != nil || tr2.ambiguous != "" {
+			continue
+		}
+		if rerr != nil {
+			return fmt.Errorf("Run on packet %d of a reused VM returned error %v (reference verdict %d)", i+2, rerr, want)
+		}
+		if got < 0 || int64(got) > 0xffffffff || uint32(got) != want {
+			return fmt.Errorf("Run on packet %d of a reused VM returned %d, the reference interpreter (clean machine) %d", i+2, got, want)
+		}
+		r.Class("reused-vm-run")
+		if tr2.scratchRead && tr.steps != tr2.steps {
+			r.Class("reused-vm-run: scratch read on a different path")
+		}
+	}
 	return nil
 }
 
@@ -470,6 +491,25 @@ func c49Gen(t *rapid.T) c49Case {
 			t, f := fold(uint32(x.T)), fold(uint32(x.F))
 			x.T, x.F = uint8(min(t, 255)), uint8(min(f, 255))
 		}
+	}
+	// further packets for the same VM: variations of the first one (other lengths,
+	// flipped bytes) so that different paths of the same program are taken
+	nmore := rapid.IntRange(0, 3).Draw(t, "more")
+	for i := 0; i < nmore; i++ {
+		q := append([]byte(nil), c.Pkt...)
+		switch rapid.IntRange(0, 3).Draw(t, "moreKind") {
+		case 0:
+			q = rapid.SliceOfN(pb, 0, 128).Draw(t, "morePkt")
+		case 1:
+			if len(q) > 0 {
+				q = q[:rapid.IntRange(0, len(q)-1).Draw(t, "cut")]
+			}
+		default:
+			for j := rapid.IntRange(1, 4).Draw(t, "flips"); j > 0 && len(q) > 0; j-- {
+				q[rapid.IntRange(0, len(q)-1).Draw(t, "at")] ^= byte(1 << rapid.IntRange(0, 7).Draw(t, "bit"))
+			}
+		}
+		c.More = append(c.More, q)
 	}
 	return c
 }
